@@ -14,7 +14,7 @@ import extract_decisions as ED
 AREA={"routerDeliver":"Router","routerIsBlob":"Router","driverAccepts":"Router","routerToDevice":"Router","routerToClient":"Router",
       "bufLoopGuard":"Buffer","bufCleanupDue":"Buffer","bufSkip":"Buffer","callbackAccepts":"Callback",
       "switchTurnsOn":"Switch","switchClearsOthers":"Switch","switchKeepsLast":"Switch","switchIsOtherOn":"Switch","switchNoOtherOn":"Switch",
-      "vectorEnabled":"Vector","waitRelease":"Wait","waitPollGuard":"Wait","waitTimeoutGuard":"Wait","waitTimeoutArmed":"Wait"}
+      "vectorEnabled":"Vector","setValueDefault":"Driver","toSetSilent":"Driver","toDefDeletes":"Driver","driverGetAll":"Driver","waitRelease":"Wait","waitPollGuard":"Wait","waitTimeoutGuard":"Wait","waitTimeoutArmed":"Wait"}
 
 class Mut(ast.NodeTransformer):
     """apply the k-th applicable point mutation"""
